@@ -4,7 +4,7 @@ import math
 from fractions import Fraction
 import z3
 
-from .values import (SymStr, Choice, SymList, Obj, OPAQUE, Unsupported, is_z3, is_bv, is_zint, is_zreal, is_zbool, is_fp,
+from .values import (OPQ, SymStr, Choice, SymList, Obj, OPAQUE, Unsupported, is_z3, is_bv, is_zint, is_zreal, is_zbool, is_fp,
                      is_pyint, zand, zor, znot, zbool, tobool_const)
 from .ctx import PyRaise, Killed, NoFork, Explorer, Ctx
 from .ops import Ops
@@ -269,6 +269,10 @@ class Interp(ExprMixin, StmtMixin):
         raise Unsupported("call of %r at %s" % (fn, w))
 
     def call_external(self, fn, args, kwargs, w):
+        if any(a is OPQ for a in args) or (self.ctx.settings.float_mode == "opaque" and getattr(fn, "__module__", "") == "math"):
+            if getattr(fn, "__name__", "") in ("floor", "ceil", "trunc") or fn is round:
+                raise Unsupported("integer part of an abstracted float at %s" % w)
+            return OPQ
         conc = []
         for a in args:
             if is_z3(a) or isinstance(a, (Choice, SymList)):
@@ -600,6 +604,16 @@ class Interp(ExprMixin, StmtMixin):
             return list(reversed(self.concrete_iter(args[0], w)))
         if name == "zip":
             return list(zip(*[self.concrete_iter(a, w) for a in args]))
+        if name in ("max", "min") and any(a is OPQ for a in args):
+            return OPQ
+        if name in ("abs", "float") and args and args[0] is OPQ:
+            return OPQ
+        if name == "round" and args and args[0] is OPQ:
+            raise Unsupported("round of an abstracted float at %s" % w)
+        if name == "sum" and self.ctx.settings.float_mode == "opaque":
+            vals = self.concrete_iter(args[0], w)
+            if any(v is OPQ for v in vals) or (len(args) > 1 and args[1] is OPQ):
+                return OPQ
         if name in ("max", "min"):
             vals = list(args) if len(args) > 1 else self.concrete_iter(args[0], w)
             cur = vals[0]
